@@ -290,6 +290,34 @@ func c12Invariants(c *mon.Ctx, g lint.Registry, names []string, inReg map[string
 			c.V("kind-names|"+k.String(), when+": "+fmt.Sprintf("%s lookup Names() has %d entries (sorted=%v), Lints() %d", k, len(l), sort.StringsAreSorted(l), len(byKindList[k])), "", nil, nil)
 		}
 	}
+	// the deprecated kind-less lookups (Registry.ByName / BySource, answering for certificate lints with *lint.Lint
+	// values) must tell the same story as the certificate lookup
+	for _, cl := range g.CertificateLints().Lints() {
+		d := g.ByName(cl.Name)
+		if d == nil {
+			c.V("deprecated-byname|"+cl.Name, when+": Registry.ByName("+cl.Name+") is nil for a registered certificate lint", cl.Name, nil, nil)
+			continue
+		}
+		if d.Name != cl.Name || d.Source != cl.Source || d.Description != cl.Description || d.Citation != cl.Citation || !d.EffectiveDate.Equal(cl.EffectiveDate) || !d.IneffectiveDate.Equal(cl.IneffectiveDate) {
+			c.V("deprecated-byname-metadata|"+cl.Name, when+": "+fmt.Sprintf("Registry.ByName(%s) reports name %q source %q window [%s, %s), the certificate lookup %q %q [%s, %s)", cl.Name, d.Name, d.Source, fmtDate(d.EffectiveDate), fmtDate(d.IneffectiveDate), cl.Name, cl.Source, fmtDate(cl.EffectiveDate), fmtDate(cl.IneffectiveDate)), cl.Name, nil, nil)
+		}
+	}
+	for _, s := range g.Sources() {
+		want := map[string]bool{}
+		for _, cl := range g.CertificateLints().BySource(s) {
+			want[cl.Name] = true
+		}
+		got := map[string]bool{}
+		for _, d := range g.BySource(s) {
+			got[d.Name] = true
+			if d.Source != s {
+				c.V("deprecated-bysource|"+string(s), when+": "+fmt.Sprintf("Registry.BySource(%s) returns %s whose source is %q", s, d.Name, d.Source), d.Name, nil, nil)
+			}
+		}
+		if !reflect.DeepEqual(got, want) {
+			c.V("deprecated-bysource|"+string(s), when+": "+fmt.Sprintf("Registry.BySource(%s) names %d certificate lints, CertificateLints().BySource %d", s, len(got), len(want)), "", nil, nil)
+		}
+	}
 	c.R.Count("invariant_passes", 1)
 }
 
@@ -370,6 +398,30 @@ func c12Solo(c *mon.Ctx) {
 		}
 		if len(g.Names()) != before+k+1 {
 			c.V("addition-not-listed", fmt.Sprintf("after %d additions Names() has %d entries, want %d", k+1, len(g.Names()), before+k+1), "", nil, nil)
+		}
+	}
+	// the deprecated API used the way old code uses it: ONE lint.Lint value re-used as a template for a family of
+	// registrations (name, source and dates changed between the calls), and a value handed out by ByName edited by
+	// its holder. Each registered lint keeps what it was registered with; an edit of a handed-out value is the
+	// holder's own business.
+	{
+		tmpl := &lint.Lint{Description: "verif template", Citation: "verif", Lint: func() lint.LintInterface { return probeCert{} }}
+		for k, v := range []struct {
+			n string
+			s lint.LintSource
+			e time.Time
+		}{{"e_verif_c12_family_a", lint.RFC5280, time.Date(2015, 1, 1, 0, 0, 0, 0, time.UTC)}, {"w_verif_c12_family_b", lint.Community, time.Date(2019, 6, 1, 0, 0, 0, 0, time.UTC)}, {"n_verif_c12_family_c", lint.EtsiEsi, time.Time{}}} {
+			tmpl.Name, tmpl.Source, tmpl.EffectiveDate = v.n, v.s, v.e
+			lint.RegisterLint(tmpl)
+			pass(fmt.Sprintf("after registering family member %d through one re-used deprecated Lint value", k+1))
+		}
+		tmpl.Name, tmpl.Source = "e_verif_c12_template_edited_afterwards", lint.AppleRootStorePolicy
+		pass("after the template value was edited once more (not registered)")
+		for _, n := range []string{"e_verif_c12_family_a", g.Names()[9]} {
+			if d := g.ByName(n); d != nil {
+				d.Name, d.Source, d.EffectiveDate = "e_verif_c12_edited_by_holder", lint.RFC8813, time.Date(2031, 1, 1, 0, 0, 0, 0, time.UTC)
+			}
+			pass("after a value handed out by ByName(" + n + ") was edited by its holder")
 		}
 	}
 	// registrations the registry must REFUSE (the documented refusal is a panic) and that must leave it untouched:
